@@ -177,6 +177,54 @@ theorem early_tmp_gone_partial (ct : ConvTable) (p : Plan) (t0 : Tbl) (e : Err)
         rw [htry] at hearly
         exact absurd (elseBranch_trace _) hearly
 
+/-! ## the temporary table after an early failure: as strong as it is true -/
+
+/-- shape of finding C11-F2: the run ended in a later statement of `create_table` (a `CREATE INDEX` on the
+temporary table, before the `try`) -/
+def FailedInCreateTableTail (x : Run × Option Err) : Prop := ∃ ix, x.1.trace.getLast? = some (.createTmpIndex ix)
+
+/-- shape of finding C11-F1: the enclosing scope rolls back while pysqlite's implicit transaction (opened by the
+`INSERT`) is open — the clean-up `DROP` is part of that transaction -/
+def RolledBackOpenTxn (commitOnError : Bool) (x : Run × Option Err) : Prop :=
+  commitOnError = false ∧ x.1.conn.inTxn = true
+
+/-- a second fault: the injected fault hits the clean-up `DROP` itself (outside the single-fault reading) -/
+def CleanupFaulted (fault : Option Nat) (x : Run × Option Err) : Prop :=
+  ∃ k, fault = some k ∧ x.1.trace[k]? = some .dropTmp
+
+/-- **C11.early (temporary table), exact form.**  After *every* failure at or before `DROP` of the original —
+any fault index, natural or injected, either scope, any number of `create_table` statements — the temporary
+table is gone, **unless** the run has the shape of C11-F2 (it ended in a later statement of `create_table`), or
+of C11-F1 (the scope rolls back with the implicit transaction open), or the fault hit the clean-up itself.
+So: a failure of `CREATE TABLE` itself, an injected failure of the `INSERT` (raised before the implicit BEGIN),
+and every failing copy / failing `DROP` under a committing scope leave no temporary table. -/
+theorem early_tmp_gone (ct : ConvTable) (fault : Option Nat) (commitOnError : Bool) (p : Plan) (t0 : Tbl)
+    (hearly : Early (run ct fault p { orig := some t0, tmp := none }))
+    (hF2 : ¬ FailedInCreateTableTail (run ct fault p { orig := some t0, tmp := none }))
+    (hF1 : ¬ RolledBackOpenTxn commitOnError (run ct fault p { orig := some t0, tmp := none }))
+    (hsingle : ¬ CleanupFaulted fault (run ct fault p { orig := some t0, tmp := none })) :
+    (final ct fault commitOnError p { orig := some t0, tmp := none }).tmp = none := by
+  unfold final run at *
+  apply create_early_tmp_gone commitOnError (Run.start (Conn.fresh { orig := some t0, tmp := none })) ⟨rfl, rfl⟩ (by unfold Numbered; rfl) hearly
+  · intro ix h; exact hF2 ⟨ix, h⟩
+  · cases commitOnError with
+    | true => exact .inl rfl
+    | false =>
+      right
+      cases h : (create ct fault p (Run.start (Conn.fresh { orig := some t0, tmp := none }))).1.conn.inTxn with
+      | false => rfl
+      | true => exact absurd ⟨rfl, h⟩ hF1
+  · intro k hk h; exact hsingle ⟨k, hk, h⟩
+
+/-- **C11.early in the property's own words.**  For a fault injected at statement `k ≤ index(DROP original)`
+(`index(DROP original) = number of create_table statements + 1`, i.e. `p.tmpIndexes.length + 2`), schema, indexes
+and rows of the original table are unchanged — in both scopes, whatever else fails naturally. -/
+theorem fault_upto_drop_unchanged (ct : ConvTable) (k : Nat) (commitOnError : Bool) (p : Plan) (db0 : Db) (t0 : Tbl)
+    (h0 : db0.orig = some t0) (hk : k ≤ p.tmpIndexes.length + 2) :
+    (final ct (some k) commitOnError p db0).orig = some t0 := by
+  unfold final run
+  exact finish_intact (create_intact_of_fault (fresh_intact h0) rfl rfl hk)
+
 /-! ## non-vacuity -/
 
 /-- the hypotheses of `early_orig_intact` / `early_tmp_gone_partial` are met by a run that really fails
@@ -190,6 +238,28 @@ example : (run [] (some 4) w_plan2 { orig := some w_t0, tmp := none }).2 = some 
 
 /-- `success_no_tmp` is not vacuous: the fault-free run of the second plan succeeds -/
 example : (run [] none w_plan2 { orig := some w_t0, tmp := none }).2 = none := by decide
+
+/-- `early_tmp_gone` applies to real failing runs: the NOT NULL witness under a committing scope … -/
+example : Early (run [] none w_plan1 { orig := some w_t0, tmp := none }) ∧
+    ¬ FailedInCreateTableTail (run [] none w_plan1 { orig := some w_t0, tmp := none }) ∧
+    ¬ RolledBackOpenTxn true (run [] none w_plan1 { orig := some w_t0, tmp := none }) ∧
+    (run [] none w_plan1 { orig := some w_t0, tmp := none }).2 = some .notNull := by
+  refine ⟨by decide, ?_, ?_, by decide⟩
+  · have hl : (run [] none w_plan1 { orig := some w_t0, tmp := none }).1.trace.getLast? = some .dropTmp := by decide
+    rintro ⟨ix, h⟩; rw [hl] at h; cases h
+  · rintro ⟨h, _⟩; cases h
+
+/-- … and an injected failure of the INSERT under a rolling-back scope (no implicit transaction was opened) -/
+example : Early (run [] (some 1) w_plan1 { orig := some w_t0, tmp := none }) ∧
+    (run [] (some 1) w_plan1 { orig := some w_t0, tmp := none }).1.conn.inTxn = false ∧
+    (run [] (some 1) w_plan1 { orig := some w_t0, tmp := none }).2 = some .injected ∧
+    (final [] (some 1) false w_plan1 { orig := some w_t0, tmp := none }).tmp = none := by decide
+
+/-- the two excluded shapes are exactly what the counterexample witnesses have -/
+example : RolledBackOpenTxn false (run [] none w_plan1 { orig := some w_t0, tmp := none }) := by
+  exact ⟨rfl, by decide⟩
+example : FailedInCreateTableTail (run [] (some 1) w_plan2 { orig := some w_t0, tmp := none }) :=
+  ⟨{ name := "ix__alembic_tmp_t_n1", cols := ["n1"], unique := false }, by decide⟩
 
 /-- the checker run on the implementation's observation rejects a lost row and a left-over temporary table -/
 example : Spec.Batch.check11 [] w_t0 [] true { orig := some { w_t0 with rows := [] }, tmp := none } ≠ [] := by decide
